@@ -19,8 +19,12 @@ and "every input-type/remap combination of the shipped methods":
   {"shared": {"maps": [...], "calls": [{"method", "mokapot", "colseed", "files"}, ...]}}
       parse_evidence_files called once per entry with ONE list object, as run_picked_group_fdr hands one list to
       every method; every call must return what the model gives for it alone and leave the list as it was.
-  {"run": {"methods": [...], "inputs": {family: {"mokapot", "colseed", "files"}}, "fasta": [[[header, seq]..]..] | None,
-           "decoys_in_fasta": bool, "digest": [{"enzyme","mc","min","max","special","mode"}..], "maps": [...], "via": "inproc"|"cli"}}
+  {"run": {"methods": [...], "inputs": {family: {"mokapot", "colseed", "files", "names"}}, "fasta": [[[header, seq]..]..] | None,
+           "decoys_in_fasta": bool, "digest": [{"enzyme","mc","min","max","special","mode"}..], "maps": [...], "via": "inproc"|"cli",
+           "fasta_names": [...], "map_names": [...]}}
+      names = relative paths of the files in the ORDER OF MENTION on the command line (gen_cli.file_names: sorted order is
+      the exception, one file name in several directories is common, a name occurring twice = one file mentioned twice);
+      the i-th file mentioned belongs to the i-th digestion parameter set / map whatever it is called.
       the tool's entry point (picked_group_fdr.main(argv), or `python -m picked_group_fdr argv` in a process of its
       own for via="cli") with the ingestion recorded: maps built by the tool from --fasta with per-file
       --enzyme/--cleavages/--min-length/--max-length/--special-aas/--digestion lists (or read from
@@ -44,6 +48,7 @@ import tempfile
 from fractions import Fraction
 from pathlib import Path
 
+import gen_cli
 import lib
 from lib import Prop, rat, unrat
 
@@ -136,10 +141,36 @@ def _shuffled(header, rows, seed, keep_last=False):
     return [header[i] for i in idx], [[r[i] for i in idx] + r[len(header):] for r in rows]
 
 
+NAME_KIND = {"maxquant": "mq", "native": "perc", "mokapot": "mokapot", "fragpipe": "fragpipe", "sage": "sage", "diann": "diann"}
+NUMBERED = {"maxquant": "evidence%d.txt", "native": "perc%d.txt", "mokapot": "moka%d.txt", "fragpipe": "psm%d.tsv",
+            "sage": "results%d.sage.tsv", "diann": "report%d.tsv"}
+
+
+def file_set_names(case, fmt):
+    """relative paths of the files of a file set, in the order in which they are handed over / mentioned on the
+    command line: case["names"] (a list; a name occurring twice = one file mentioned twice), "numbered" = the
+    numbered names evidence0.txt, evidence1.txt ... (sorted order), absent = names drawn from the case's colseed
+    (gen_cli.file_names: sorted order is the exception, one name in several directories is common)"""
+    n = len(case["files"])
+    names = case.get("names")
+    if isinstance(names, list) and len(names) == n:
+        return list(names)
+    if names is None:
+        return gen_cli.default_names(n, NAME_KIND[fmt], case.get("colseed", 0))
+    return [NUMBERED[fmt] % i for i in range(n)]
+
+
 def render(case, d):
     fmt, _ = fmt_of(method_score_type(case["method"]), case.get("mokapot", False))
     paths = []
+    names = file_set_names(case, fmt)
     for n, rows in enumerate(case["files"]):
+        first = names.index(names[n])
+        if first != n:  # a second mention of a file on the command line: one file
+            if case["files"][first] != rows:
+                raise ValueError("harness: file %s is mentioned twice with different content" % names[n])
+            paths.append(paths[first])
+            continue
         if fmt == "maxquant":
             hdr = ["Modified sequence", "Leading proteins", "Leading razor protein", "PEP", "Score", "Experiment", "id"]
             out = [
@@ -147,28 +178,23 @@ def render(case, d):
                 for i, r in enumerate(rows)
             ]
             hdr, out = _shuffled(hdr, out, case.get("colseed", 0) + n)
-            name = f"evidence{n}.txt"
         elif fmt == "native":
             hdr = ["PSMId", "score", "q-value", "posterior_error_prob", "peptide", "proteinIds"]
             out = [[f"raw_{i}_2_1", "1.0", "0.01", _cell(r["score"]), r["pep"]] + list(r["prot"]) for i, r in enumerate(rows)]
             hdr, out = _shuffled(hdr[:-1], [o[:5] + o[5:] for o in out], case.get("colseed", 0) + n)
             hdr = hdr + ["proteinIds"]
-            name = f"perc{n}.txt"
         elif fmt == "mokapot":
             hdr = ["SpecId", "Label", "ScanNr", "ExpMass", "CalcMass", "Peptide", "mokapot score", "mokapot q-value", "mokapot PEP", "Proteins"]
             out = [[f"raw_{i}_2_1", "1", str(i), "1", "1", r["pep"], "1.0", "0.01", _cell(r["score"]), r["prot"][0]] for i, r in enumerate(rows)]
             hdr, out = _shuffled(hdr, out, case.get("colseed", 0) + n)
-            name = f"moka{n}.txt"
         elif fmt == "fragpipe":
             hdr = ["Spectrum", "Peptide", "Modified Peptide", "SpectralSim", "PeptideProphet Probability", "Protein", "Mapped Proteins"]
             out = [[str(i), r["pep"], r.get("mod", ""), "0.9", _cell(r["score"]), r["prot"][0], r["prot"][1]] for i, r in enumerate(rows)]
             hdr, out = _shuffled(hdr, out, case.get("colseed", 0) + n)
-            name = f"psm{n}.tsv"
         elif fmt == "sage":
             hdr = ["peptide", "proteins", "charge", "sage_discriminant_score", "filename", "posterior_error"]
             out = [[r["pep"], r["prot"][0], "2", "1.0", "f.mzML", _cell(r["score"])] for r in rows]
             hdr, out = _shuffled(hdr, out, case.get("colseed", 0) + n)
-            name = f"results{n}.sage.tsv"
         else:  # diann
             hdr = ["Run", "Modified.Sequence", "Precursor.Charge", "Protein.Ids", "Decoy", "PEP", "Ms1.Normalised"]
             out = [
@@ -176,13 +202,14 @@ def render(case, d):
                 for r in rows
             ]
             hdr, out = _shuffled(hdr, out, case.get("colseed", 0) + n)
-            name = f"report{n}.tsv"
-        p = os.path.join(d, name)
-        with open(p, "w", newline="", encoding="utf-8") as f:
-            w = csv.writer(f, delimiter="\t")
-            w.writerow(hdr)
-            w.writerows(out)
-        paths.append(p)
+
+        def write(p, hdr=hdr, out=out):
+            with open(p, "w", newline="", encoding="utf-8") as f:
+                w = csv.writer(f, delimiter="\t")
+                w.writerow(hdr)
+                w.writerows(out)
+
+        paths.append(gen_cli.write_once(d, names[n], write))
     return paths
 
 
@@ -558,6 +585,40 @@ def digest_args(run):
     return argv
 
 
+def run_aux_names(run, key):
+    """relative paths of the FASTA files (key "fasta", run["fasta_names"]) / map files (key "maps", run["map_names"]) of
+    a run in command-line order; distinct names (the same FASTA or map file mentioned twice is not generated here);
+    runs without names: db0.fasta, db1.fasta ... / map0.tsv ..."""
+    n = len(run.get(key) or [])
+    names = run.get({"fasta": "fasta_names", "maps": "map_names"}[key])
+    if isinstance(names, list) and len(names) == n and len(set(names)) == n:
+        return list(names)
+    return [{"fasta": "db%d.fasta", "maps": "map%d.tsv"}[key] % i for i in range(n)]
+
+
+def sync_run_mentions(run):
+    """a file mentioned twice is ONE file: a later mention of a name carries the rows of the first; name lists that no
+    longer fit the number of files (after shrinking) give way to the numbered names"""
+    out = dict(run, inputs=dict(run["inputs"]))
+    for fam, inp in run["inputs"].items():
+        nm = inp.get("names")
+        if not isinstance(nm, list):
+            continue
+        if len(nm) != len(inp["files"]):
+            out["inputs"][fam] = {k: v for k, v in inp.items() if k != "names"}
+            continue
+        files = list(inp["files"])
+        for i, n in enumerate(nm):
+            j = nm.index(n)
+            if j != i:
+                files[i] = files[j]
+        out["inputs"][fam] = dict(inp, files=files)
+    for key, nk in (("fasta", "fasta_names"), ("maps", "map_names")):
+        if isinstance(run.get(nk), list) and len(run[nk]) != len(run.get(key) or []):
+            out.pop(nk)
+    return out
+
+
 def run_orders(run):
     """the entry-point runs of one scenario: the methods in the given order; with several methods also the
     reversed order and every method alone"""
@@ -575,31 +636,33 @@ def run_scenario(run, submit=None):
     d = tempfile.mkdtemp(prefix="pgfdr_c10run_")
     try:
         argv_in = []
+        ind = os.path.join(d, "in")
         for fam in sorted(run["inputs"]):
             inp = run["inputs"][fam]
             m = next(m for m in run["methods"] if family_of(method_score_type(m)) == fam)
-            paths = render({"method": m, "mokapot": inp.get("mokapot", False), "colseed": inp.get("colseed", 0), "files": inp["files"]}, d)
+            paths = render({"method": m, "mokapot": inp.get("mokapot", False), "colseed": inp.get("colseed", 0), "files": inp["files"],
+                            "names": inp.get("names", "numbered")}, os.path.join(ind, fam))
             argv_in += [FAMILY_FLAG[fam], *paths]
         if run.get("fasta"):
             fps = []
-            for n, recs in enumerate(run["fasta"]):
-                fp = os.path.join(d, f"db{n}.fasta")
-                with open(fp, "w", encoding="utf-8") as fh:
-                    for h, s in recs:
-                        fh.write(">" + h + "\n")
-                        for a in range(0, len(s), 7):
-                            fh.write(s[a : a + 7] + "\n")
-                fps.append(fp)
+            for rel, recs in zip(run_aux_names(run, "fasta"), run["fasta"]):
+                def wf(fp, recs=recs):
+                    with open(fp, "w", encoding="utf-8") as fh:
+                        for h, s in recs:
+                            fh.write(">" + h + "\n")
+                            for a in range(0, len(s), 7):
+                                fh.write(s[a : a + 7] + "\n")
+                fps.append(gen_cli.write_once(os.path.join(ind, "fasta"), rel, wf))
             argv_in += ["--fasta", *fps] + (["--fasta_contains_decoys"] if run.get("decoys_in_fasta") else []) + digest_args(run)
         elif run.get("maps"):
             mps = []
-            for k, m in enumerate(run["maps"]):
-                f = os.path.join(d, f"map{k}.tsv")
-                with open(f, "w", newline="", encoding="utf-8") as fh:
-                    w = csv.writer(fh, delimiter="\t")
-                    for pep, ps in m:
-                        w.writerow([pep, ";".join(ps)])
-                mps.append(f)
+            for rel, m in zip(run_aux_names(run, "maps"), run["maps"]):
+                def wm(f, m=m):
+                    with open(f, "w", newline="", encoding="utf-8") as fh:
+                        w = csv.writer(fh, delimiter="\t")
+                        for pep, ps in m:
+                            w.writerow([pep, ";".join(ps)])
+                mps.append(gen_cli.write_once(os.path.join(ind, "maps"), rel, wm))
             argv_in += ["--peptide_protein_map", *mps]
         jobs = []
         orders = run_orders(run)
@@ -690,7 +753,9 @@ class P(Prop):
         "proteins over 8 tryptic blocks with one digestion-parameter set or one per evidence file -- enzyme, missed "
         "cleavages, length window, special residues, full/semi differ between files -- or read from map files; PSM peptides "
         "drawn from the union of the per-file digests so that some are known only to another file's digest), repeated "
-        "in the reversed method order and per method alone; non-trivial there = several methods or several maps and "
+        "in the reversed method order and per method alone; evidence, FASTA and map files under random names (sub-directories, "
+        "one file name in several directories) mentioned in random, mostly non-alphabetical order, 10 % of the multi-file inputs "
+        "mention one file twice; non-trivial there = several methods or several maps and "
         "every method ingests something. The extra stage repeats 15 (quick) / 150 (thorough) such scenarios with every "
         "run in a process of its own"
     )
@@ -998,6 +1063,22 @@ class P(Prop):
                 if sum(len(f) for f in files) > 0:
                     break
             run["inputs"][fam] = {"mokapot": mokapot, "colseed": rng.randint(0, 999), "files": files}
+        # file names and their order on the command line: the i-th file MENTIONED belongs to the i-th parameter set /
+        # map whatever the files are called (sorted order is the exception); 10 % of the multi-file inputs mention one
+        # file twice (the tool reads every mention, each through the map of its position)
+        for fam in fams:
+            inp = run["inputs"][fam]
+            fmt, _ = fmt_of(next(method_score_type(m) for m in ms if family_of(method_score_type(m)) == fam), inp["mokapot"])
+            nm = gen_cli.file_names(rng, len(inp["files"]), NAME_KIND[fmt])
+            if len(nm) >= 2 and rng.random() < 0.1:
+                src, dst = rng.sample(range(len(nm)), 2)
+                nm[dst] = nm[src]
+                inp["files"][dst] = [dict(r) for r in inp["files"][src]]
+            inp["names"] = nm
+        if run["fasta"]:
+            run["fasta_names"] = gen_cli.file_names(rng, len(run["fasta"]), "fasta")
+        if run["maps"]:
+            run["map_names"] = gen_cli.file_names(rng, len(run["maps"]), "map")
         return run
 
     # -- the implementation ---------------------------------------------------------------
@@ -1194,9 +1275,13 @@ class P(Prop):
             if len(calls) != len(ms) and not (R.get("err") == "no_ranked_groups" and 0 < len(calls) <= len(ms)):
                 return f"{where}: {len(calls)} evidence ingestions recorded for {len(ms)} methods"
             for m, c in zip(ms, calls):
-                nf = len(run["inputs"][family_of(method_score_type(m))]["files"])
-                tag = f"{where}: method {m} ({nf} files)"
-                if c["nfiles"] != nf:
+                inp = run["inputs"][family_of(method_score_type(m))]
+                nf = len(inp["files"])
+                tag = f"{where}: method {m} ({nf} files" + (", mentioned in the order " + " ".join(inp["names"]) if isinstance(inp.get("names"), list) and nf > 1 else "") + ")"
+                twice = isinstance(inp.get("names"), list) and len(set(inp["names"])) < nf
+                # (a file mentioned twice: reading it once or twice is the tool's business as long as the peptide list is
+                #  the one of reading every mention through the map of its position -- judged below)
+                if c["nfiles"] != nf and not twice:
                     return f"{tag}: {c['nfiles']} evidence files handed to the ingestion"
                 why = self.judge(want[m], c["pil"])
                 if why:
@@ -1328,6 +1413,19 @@ class P(Prop):
             if run.get("fasta") and len(maps) > 1:
                 f.append("run_per_file_digestion_params")
                 f += ["run_varies=" + k for _, k in DIGEST_FLAGS if len({str(p[k]) for p in eff_digest(run)}) > 1]
+            for fam, inp in sorted(run["inputs"].items()):
+                nm = inp.get("names")
+                if isinstance(nm, list) and len(nm) > 1:
+                    f.append("run_files_in_%s_order" % ("alphabetical" if nm == sorted(nm) else "non_alphabetical"))
+                    if len(set(nm)) < len(nm):
+                        f.append("run_file_mentioned_twice")
+                    if len({x.rsplit("/", 1)[-1] for x in set(nm)}) < len(set(nm)):
+                        f.append("run_same_file_name_in_different_directories")
+                    if run.get("fasta") and len(maps) > 1 and nm != sorted(nm):
+                        f.append("run_per_file_digestion_params_and_files_in_non_alphabetical_order")
+            for nk in ("fasta_names", "map_names"):
+                if len(run.get(nk) or []) > 1:
+                    f.append("run_%s_in_%s_order" % (nk, "alphabetical" if run[nk] == sorted(run[nk]) else "non_alphabetical"))
             e, l = self.run_sensitivity(run)
             if e:
                 f.append("run_peptide_known_to_other_files_digest_only")
@@ -1474,6 +1572,24 @@ class P(Prop):
                 yield {"shared": {"maps": maps[:i] + [m[:j] + m[j + 1:]] + maps[i + 1:], "calls": calls}}
 
     def _shrink_run(self, run):
+        """candidates of _shrink_run_raw with the bookkeeping of file names kept consistent (sync_run_mentions), then the
+        question whether the names matter: numbered names in the order of mention, or the same names in sorted order"""
+        for cand in self._shrink_run_raw(run):
+            r2 = sync_run_mentions(cand["run"])
+            if r2 != run:
+                yield {"run": r2}
+        for fam, inp in sorted(run["inputs"].items()):
+            nm = inp.get("names")
+            if isinstance(nm, list):
+                # numbered names (a file mentioned twice becomes two files of equal content)
+                yield {"run": dict(run, inputs=dict(run["inputs"], **{fam: {k: v for k, v in inp.items() if k != "names"}}))}
+                if len(set(nm)) == len(nm) and nm != sorted(nm):
+                    yield {"run": dict(run, inputs=dict(run["inputs"], **{fam: dict(inp, names=sorted(nm))}))}
+        for nk in ("fasta_names", "map_names"):
+            if run.get(nk):
+                yield {"run": {k: v for k, v in run.items() if k != nk}}
+
+    def _shrink_run_raw(self, run):
         def fams_of(ms):
             return {family_of(method_score_type(m)) for m in ms}
 
@@ -1488,12 +1604,17 @@ class P(Prop):
             n = len(inp["files"])
             if n > 1:
                 for j in range(n):
-                    r2 = dict(run, inputs=dict(run["inputs"], **{fam: dict(inp, files=inp["files"][:j] + inp["files"][j + 1:])}))
+                    inp2 = dict(inp, files=inp["files"][:j] + inp["files"][j + 1:])
+                    if isinstance(inp.get("names"), list) and len(inp["names"]) == n:
+                        inp2["names"] = inp["names"][:j] + inp["names"][j + 1:]
+                    r2 = dict(run, inputs=dict(run["inputs"], **{fam: inp2}))
                     if len(run["inputs"]) == 1:
                         if len(run.get("digest") or []) == n:
                             r2["digest"] = run["digest"][:j] + run["digest"][j + 1:]
                         if len(run.get("maps") or []) == n:
                             r2["maps"] = run["maps"][:j] + run["maps"][j + 1:]
+                            if len(run.get("map_names") or []) == n:
+                                r2["map_names"] = run["map_names"][:j] + run["map_names"][j + 1:]
                     yield {"run": r2}
         # fewer rows
         for fam, inp in sorted(run["inputs"].items()):
@@ -1502,13 +1623,15 @@ class P(Prop):
         # smaller database
         if run.get("fasta"):
             fa = run["fasta"]
+            fn = run_aux_names(run, "fasta") if run.get("fasta_names") else None
             for i, recs in enumerate(fa):
                 for j in range(len(recs)):
-                    f2 = [r for r in fa[:i] + [recs[:j] + recs[j + 1:]] + fa[i + 1:] if r]
-                    if f2:
-                        yield {"run": dict(run, fasta=f2)}
+                    f2 = fa[:i] + [recs[:j] + recs[j + 1:]] + fa[i + 1:]
+                    keep = [k for k, r in enumerate(f2) if r]
+                    if keep:
+                        yield {"run": dict(run, fasta=[f2[k] for k in keep], **({"fasta_names": [fn[k] for k in keep]} if fn else {}))}
             if len(fa) > 1:
-                yield {"run": dict(run, fasta=[[r for recs in fa for r in recs]])}
+                yield {"run": dict(run, fasta=[[r for recs in fa for r in recs]], **({"fasta_names": fn[:1]} if fn else {}))}
             dg = run["digest"]
             if len(dg) > 1:
                 yield {"run": dict(run, digest=dg[:1])}
@@ -1520,7 +1643,7 @@ class P(Prop):
                 if len(m) > 1:
                     yield {"run": dict(run, maps=run["maps"][:i] + [m[:j] + m[j + 1:]] + run["maps"][i + 1:])}
         if len(run.get("maps") or []) > 1:
-            yield {"run": dict(run, maps=run["maps"][:1])}
+            yield {"run": dict(run, maps=run["maps"][:1], **({"map_names": run["map_names"][:1]} if run.get("map_names") else {}))}
 
     # -- extra stage: the string functions on a malformed stream ---------------------------------------
     def extra(self, ctx):
@@ -1583,7 +1706,8 @@ class P(Prop):
         stats = {"tables": 0, "no_ranked_groups": 0, "groups": 0, "decoy_groups": 0}
         rstats = {"scenarios": len(runs), "entry_point_runs": 0, "ingestions_compared": 0, "tables": 0,
                   "per_file_digestion_params": 0, "peptide_known_to_other_files_digest_only": 0,
-                  "later_method_more_files": 0, "no_ranked_groups": 0}
+                  "later_method_more_files": 0, "no_ranked_groups": 0, "files_mentioned_in_non_alphabetical_order": 0,
+                  "per_file_digestion_params_and_non_alphabetical_order": 0, "file_mentioned_twice": 0}
         modelled = 0
         if cases or runs:
             from concurrent.futures import ThreadPoolExecutor
@@ -1619,6 +1743,11 @@ class P(Prop):
                 e, l = self.run_sensitivity(c["run"])
                 rstats["per_file_digestion_params"] += int(bool(c["run"].get("fasta")) and len(eff_digest(c["run"])) > 1)
                 rstats["peptide_known_to_other_files_digest_only"] += int(e)
+                nms = [i["names"] for i in c["run"]["inputs"].values() if isinstance(i.get("names"), list) and len(i["names"]) > 1]
+                unsorted = any(nm != sorted(nm) for nm in nms)
+                rstats["files_mentioned_in_non_alphabetical_order"] += int(unsorted)
+                rstats["per_file_digestion_params_and_non_alphabetical_order"] += int(unsorted and bool(c["run"].get("fasta")) and len(eff_digest(c["run"])) > 1)
+                rstats["file_mentioned_twice"] += int(any(len(set(nm)) < len(nm) for nm in nms))
                 rstats["later_method_more_files"] += int(l)
                 if isinstance(o, dict) and "fwd" in o:
                     for R in [o["fwd"], o.get("rev")] + list(o.get("alone") or []):
